@@ -136,6 +136,47 @@ def run_case(text, scratch, want_report=True):
                 p.unlink()
 
 
+LEGACY_OUT = ['ReservoirTemperature', 'V', 'qR', 'mWH', 'e', 'qWH', 'Rg', 'WA', 'WE', 'We']
+
+
+def run_legacy(text, scratch):
+    """The legacy program src/hip_ra/HIP_RA.py on one input: read_parameters -> Calculate -> PrintOutputs."""
+    logging.disable(logging.CRITICAL)
+    from hip_ra import HIP_RA as L
+    rid = uuid.uuid4().hex[:12]
+    inp, out = Path(scratch, f'hipl_in_{rid}.txt'), Path(scratch, f'hipl_out_{rid}.out')
+    inp.write_text(text)
+    stash_argv, stash_cwd = sys.argv, os.getcwd()
+    sys.argv = ['', str(inp), str(out)]
+    res = {'error': None}
+    hx = lambda v: float(v).hex()
+    try:
+        with contextlib.redirect_stdout(io.StringIO()), contextlib.redirect_stderr(io.StringIO()):
+            m = L.HIP_RA(enable_hip_ra_logging_config=False)
+            m.read_parameters()
+            m.Calculate()
+            T = m.ReservoirTemperature.value
+            res['inputs'] = [hx(x) for x in (T, m.RejectionTemperature.value, m.FormationPorosity.value, m.ReservoirArea.value,
+                                             m.ReservoirThickness.value, m.ReservoirHeatCapacity.value, m.DensityOfWater.value,
+                                             L._EnthalpyH20_func(T), m.RejectionEnthalpy.value, L._EntropyH20_func(T),
+                                             m.RejectionEntropy.value)]
+            res['TrejK'] = hx(m.RejectionTemperatureK.value)
+            res['outs'] = [hx(getattr(m, a).value) for a in LEGACY_OUT]
+            res['names'] = [(getattr(m, a).Name, str(getattr(getattr(m, a).CurrentUnits, 'value', ''))) for a in LEGACY_OUT]
+            res['helpers'] = {'util_eff': hx(L._UtilEff_func(T)), 'recoverable': hx(L._RecoverableHeat(-1, T))}
+            m.PrintOutputs()
+            res['report'] = out.read_text(encoding='UTF-8')
+    except BaseException as e:  # noqa
+        res['error'] = f'{type(e).__name__}: {str(e)[:200]}'
+    finally:
+        sys.argv = stash_argv
+        os.chdir(stash_cwd)
+        for p in (inp, out):
+            with contextlib.suppress(OSError):
+                p.unlink()
+    return res
+
+
 def _job(a):
     return run_case(*a)
 
